@@ -7,6 +7,7 @@ import (
 	"go/ast"
 	"go/token"
 	"go/types"
+	"sort"
 	"strings"
 
 	"golang.org/x/tools/go/ssa"
@@ -264,6 +265,35 @@ func (ex *Exec) havocEverything(st *State) {
 			keep[n] = t
 		}
 	}
+	st.Heap = keep
+	st.Epoch = Fresh("epoch", BVSort(32))
+	st.advanceAlloc("alloc")
+}
+
+// butTypes: struct types named in everything_but clauses, by family key.
+var butTypes = map[string]types.Type{}
+
+// havocEverythingBut: everything may change except the fields of existing objects of the
+// struct types with the given family keys (and ghost state).
+func (ex *Exec) havocEverythingBut(st *State, keys []string) {
+	sort.Strings(keys)
+	keep := map[string]*Term{}
+	for _, key := range keys {
+		t := butTypes[key]
+		for _, lf := range leavesOf(t) {
+			if lf.ElemKey != "" {
+				continue // array-typed fields live in the element families: havocked
+			}
+			n := "H|" + key + "|" + lf.Name
+			keep[n] = st.heap(n, ArraySort(RefSort, lf.Sort))
+		}
+	}
+	for n, t := range st.Heap {
+		if strings.HasPrefix(n, "G|ghost") {
+			keep[n] = t
+		}
+	}
+	st.logWrite(&WriteRec{Kind: "everything_but", Key: strings.Join(keys, ",")})
 	st.Heap = keep
 	st.Epoch = Fresh("epoch", BVSort(32))
 	st.advanceAlloc("alloc")
@@ -756,6 +786,23 @@ func (ex *Exec) applyContract(fr *Frame, st *State, ct *Contract, fn *ssa.Functi
 	return res
 }
 
+// famPrefixArg: the optional field path (second argument, a string literal) of structfamily.
+func famPrefixArg(call *ast.CallExpr) string {
+	if len(call.Args) < 2 {
+		return ""
+	}
+	lit, ok := call.Args[1].(*ast.BasicLit)
+	if !ok || lit.Kind != token.STRING {
+		specErr("structfamily(T, \"field.path\")")
+	}
+	return strings.Trim(lit.Value, "\"")
+}
+
+// underPrefix: leaf name (a dotted field path) is at or below prefix ("" = everything).
+func underPrefix(leaf, prefix string) bool {
+	return prefix == "" || leaf == prefix || strings.HasPrefix(leaf, prefix+".")
+}
+
 // havocSpecLoc havocs the location(s) denoted by a modifies expression.
 func (ex *Exec) havocSpecLoc(env *SpecEnv, st *State, e ast.Expr) {
 	if call, ok := e.(*ast.CallExpr); ok {
@@ -763,6 +810,20 @@ func (ex *Exec) havocSpecLoc(env *SpecEnv, st *State, e ast.Expr) {
 			switch id.Name {
 			case "everything":
 				ex.havocEverything(st)
+				return
+			case "everything_but":
+				// everything may change except the fields of existing objects of the listed struct types
+				var keys []string
+				for _, a := range call.Args {
+					t, absent := env.resolveTypeArg(a)
+					if absent {
+						continue
+					}
+					key := typeKey(t)
+					keys = append(keys, key)
+					butTypes[key] = t
+				}
+				ex.havocEverythingBut(st, keys)
 				return
 			case "elems", "elemscap":
 				sl, ok := env.eval(call.Args[0]).(SlV)
@@ -821,15 +882,20 @@ func (ex *Exec) havocSpecLoc(env *SpecEnv, st *State, e ast.Expr) {
 				}
 				return
 			case "structfamily":
-				// structfamily(T): any field of any object of struct type T may change
-				t := env.resolveType(call.Args[0])
-				if t == nil {
-					specErr("structfamily: unknown type %s", exprStr(call.Args[0]))
+				// structfamily(T): any field of any object of struct type T may change;
+				// structfamily(T, "path"): only the fields at or below that field path
+				t, absent := env.resolveTypeArg(call.Args[0])
+				if absent {
+					return
 				}
 				key := typeKey(t)
-				st.logWrite(&WriteRec{Kind: "structfamily", Key: key})
+				pfx := famPrefixArg(call)
+				st.logWrite(&WriteRec{Kind: "structfamily", Key: key, Prefix: pfx})
 				loggedElem := map[string]bool{}
 				for _, lf := range leavesOf(t) {
+					if !underPrefix(lf.Name, pfx) {
+						continue
+					}
 					if lf.ElemKey != "" {
 						// array-typed fields live in the element family of their element type:
 						// that whole family is havocked (an over-approximation)
